@@ -13,6 +13,12 @@ CONSTANTS
   Ops = {"CtxRegister", "CtxDeregister", "Dispatch", "CtxQuit", "ModRegister", "ModDeregister", "ModStart", "ModPause", "ModResume", "ModStop", "DropRef", "Tell"}
   CbOps = {"ModStart", "ModPause", "ModStop", "ModDeregister", "CtxQuit"}
   EvalVals = {TRUE, FALSE}
+  Prios = {"N"}
+  BatchSizes = {}
+  UnstashNs = {}
+  HandlerIds = {}
+  Targets = {"A", "B"}
+  AutoVals = {TRUE, FALSE}
   Senders = {"A", "B"}
   QuitCodes = {0, 1}
   Setup = ""
